@@ -16,8 +16,8 @@ import (
 
 // keyed, commutative sinks that may be called from inside a map-range loop.
 var commutativeSinks = map[string]string{
-	"pegnet.(*Pegnet).AddToBalance":                                    "balance += value on (address,ticker): additions commute; fails only on overflow/CHECK, independent of order",
-	"pegnet.(*Pegnet).SetTransactionHistoryPEGConvertedRequestAmount": "UPDATE keyed by (entry_hash, tx_index): one row per call, rows disjoint",
+	"pegnet.Pegnet.AddToBalance":                                    "balance += value on (address,ticker): additions commute; fails only on overflow/CHECK, independent of order",
+	"pegnet.Pegnet.SetTransactionHistoryPEGConvertedRequestAmount": "UPDATE keyed by (entry_hash, tx_index): one row per call, rows disjoint",
 	"pegnet.SplitTxID":                                                 "pure",
 }
 
@@ -213,7 +213,7 @@ func (ml *mapLoop) classifyCarried(P *ssa.Phi) carried {
 		case *ssa.Call:
 			if b, ok := x.Call.Value.(*ssa.Builtin); ok && b.Name() == "append" && ml.inChain(x.Call.Args[0], P, 0) {
 				kinds["append"] = true
-			} else if calleeName(x.Common()) == "math/big.(*Int).Add" && len(x.Call.Args) >= 2 && (ml.inChain(x.Call.Args[0], P, 0) || ml.inChain(x.Call.Args[1], P, 0)) {
+			} else if calleeName(x.Common()) == "math/big.Int.Add" && len(x.Call.Args) >= 2 && (ml.inChain(x.Call.Args[0], P, 0) || ml.inChain(x.Call.Args[1], P, 0)) {
 				kinds["sum"] = true
 			} else {
 				kinds["other"] = true
@@ -327,7 +327,7 @@ func (ml *mapLoop) foreignUses(P *ssa.Phi, kind string) []ssa.Instruction {
 					visit(x, seen)
 					continue
 				}
-				if calleeName(x.Common()) == "math/big.(*Int).Add" && kind == "sum" {
+				if calleeName(x.Common()) == "math/big.Int.Add" && kind == "sum" {
 					visit(x, seen)
 					continue
 				}
@@ -490,7 +490,7 @@ func (o *otaint) analyseLoop(ml *mapLoop, cons string) []taintSrc {
 				}
 				if pe := primEffect(cc); pe == "sql" {
 					// statements executed inside the loop must be keyed INSERT/UPDATE
-					if name == "database/sql.(*Stmt).Exec" || name == "database/sql.(*Tx).Prepare" {
+					if name == "database/sql.Stmt.Exec" || name == "database/sql.Tx.Prepare" {
 						okStmt := true
 						for _, st := range o.cat.Stmts {
 							if st.Fn == ml.f && ml.blocks[st.Site.Block()] && st.Site == x {
